@@ -83,7 +83,7 @@ func (c12) Build(tier string, seed uint64) []any {
 	for q := 1; q <= 100; q++ {
 		n := 2
 		if th {
-			n = 8
+			n = 40
 		}
 		for j := 0; j < n; j++ {
 			r := gen.Sub(seed, "C12", "quality", k)
@@ -117,7 +117,7 @@ func (c12) Build(tier string, seed uint64) []any {
 	}
 	nMid, nBig := 150, 12
 	if th {
-		nMid, nBig = 2000, 150
+		nMid, nBig = 12000, 500
 	}
 	for i := 0; i < nMid; i++ {
 		r := gen.Sub(seed, "C12", "mid", i)
@@ -208,6 +208,7 @@ func (c12) Exec(d any) mon.Result {
 		return v
 	}
 	worst := 0.0
+	var alt []float64 // lazily: the source pushed through the exact analysis and the library's documented synthesis gain
 	for i := range src {
 		if got[i] >= 1<<uint(c.P) {
 			return mon.Violation("out-of-range", fmt.Sprintf("sample %d decoded to container value %d, outside the declared %d-bit range", i, got[i], c.P))
@@ -226,6 +227,21 @@ func (c12) Exec(d any) mon.Result {
 			}
 		}
 		if e > t+A {
+			// The library's synthesis (taken from OpenJPEG) scales high-pass samples by the
+			// constant 1.625732422 instead of 2/K: a deterministic gain deviation of 3.3e-5 per
+			// 1-D pass, independent of the quantiser.  A sample is also accepted when it is
+			// within the same bound of the source pushed through that synthesis (DESIGN 6).
+			if alt == nil {
+				alt = c12HighGainTarget(c, src, levels, ict)
+			}
+			lo, hi := 0.0, float64(int(1)<<uint(c.P))-1
+			if c.Signed {
+				lo, hi = -float64(int(1)<<uint(c.P-1)), float64(int(1)<<uint(c.P-1))-1
+			}
+			if e2 := math.Abs(float64(g) - math.Min(hi, math.Max(lo, alt[i]))); e2 <= t+A {
+				res.AddFeat("samples_accepted_through_the_openjpeg_synthesis_gain_model", 1)
+				continue
+			}
 			x, y := (i/c.C)%c.W, i/c.C/c.W
 			r := mon.Violation("step-bound-exceeded", fmt.Sprintf("sample %d (x=%d y=%d comp=%d): decoded %d, source %d, |err|=%.0f > bound %.2f + allowance %.0f (quality %d, levels %d, LL step %.4g)", i, x, y, i%c.C, g, s, e, t, A, c.Quality, levels, steps[0]))
 			r.Cells = res.Cells
@@ -240,6 +256,52 @@ func (c12) Exec(d any) mon.Result {
 	res.AddFeat(fmt.Sprintf("slack_decile_%d", int(worst*10)), 1)
 	res.AddFeat("stream_bytes", int64(len(cs)))
 	return res
+}
+
+// c12HighGainTarget returns, per interleaved sample (signed domain, unclamped), the source
+// image analysed exactly (independent float64 ICT and 9/7) and synthesised with the
+// library's documented high-pass gain (ref.OpenJPEGHighGain), without any quantisation.
+func c12HighGainTarget(c *j2kCase, src []int, levels int, ict bool) []float64 {
+	n := c.W * c.H
+	comp := make([][]float64, c.C)
+	for k := range comp {
+		comp[k] = make([]float64, n)
+	}
+	shift := 0.0
+	if !c.Signed {
+		shift = float64(int(1) << uint(c.P-1))
+	}
+	for i, v := range src {
+		if c.Signed && v >= 1<<uint(c.P-1) {
+			v -= 1 << uint(c.P)
+		}
+		comp[i%c.C][i/c.C] = float64(v) - shift
+	}
+	if ict {
+		for i := 0; i < n; i++ {
+			r, g, b := comp[0][i], comp[1][i], comp[2][i]
+			comp[0][i] = 0.299*r + 0.587*g + 0.114*b
+			comp[1][i] = -0.168735892*r - 0.331264108*g + 0.5*b
+			comp[2][i] = 0.5*r - 0.418687589*g - 0.081312411*b
+		}
+	}
+	for k := range comp {
+		ref.Forward97(comp[k], c.W, c.H, levels)
+		ref.Inverse97HighGain(comp[k], c.W, c.H, levels, ref.OpenJPEGHighGain)
+	}
+	if ict {
+		for i := 0; i < n; i++ {
+			y, cb, cr := comp[0][i], comp[1][i], comp[2][i]
+			comp[0][i] = y + 1.402*cr
+			comp[1][i] = y - 0.344136286*cb - 0.714136286*cr
+			comp[2][i] = y + 1.772*cb
+		}
+	}
+	out := make([]float64, len(src))
+	for i := range out {
+		out[i] = comp[i%c.C][i/c.C] + shift
+	}
+	return out
 }
 
 // c12QuantOverflow reports whether, for this source image and the step sizes
